@@ -25,6 +25,10 @@ SortedById(S) ==
 \* all ops of all threads, flattened
 Ops(ev) == LET RECURSIVE Fl(_) Fl(t) == IF t > Len(ev.threads) THEN <<>> ELSE ev.threads[t] \o Fl(t + 1) IN Fl(1)
 
+\* ev.post: after the parallel phase and before maintain, exclusive access deleted these entities
+\* (all created in this frame) with one World::delete_entities call
+PostDeleted(ev) == IF "post" \in DOMAIN ev THEN SeqToSet(ev.post.hs) ELSE {}
+
 \* ev.frame > 0: a later frame of the same world; prev = the alive set this monitor
 \* expected after the previous frame's maintain (the harness' own observation of
 \* the initial aliveness must agree with it)
@@ -34,7 +38,7 @@ WantAlive(ev, prev) ==
       cr == SelectSeq(ops, LAMBDA o : o.o = "create")
       de == SelectSeq(ops, LAMBDA o : o.o = "delete")
       liveH == initLive \cup {cr[k].h : k \in 1..Len(cr)}
-  IN liveH \ {de[k].h : k \in {j \in 1..Len(de) : de[j].h \in liveH}}
+  IN (liveH \ {de[k].h : k \in {j \in 1..Len(de) : de[j].h \in liveH}}) \ PostDeleted(ev)
 
 Check(ev, prev) ==
   LET ops == Ops(ev)
@@ -46,7 +50,7 @@ Check(ev, prev) ==
       de == SelectSeq(ops, LAMBDA o : o.o = "delete")
       liveH == initLive \cup created
       requested == {de[k].h : k \in {j \in 1..Len(de) : de[j].h \in liveH}}
-      wantAlive == liveH \ requested
+      wantAlive == (liveH \ requested) \ PostDeleted(ev)
       jo == SelectSeq(ops, LAMBDA o : o.o = "join")
       lz == SelectSeq(ops, LAMBDA o : o.o = "lazy")
       queued == [k \in 1..Len(lz) |-> lz[k].tag]
@@ -62,6 +66,8 @@ Check(ev, prev) ==
   \cup {F("C10", "own handle not alive when the creation returned", cr[k].h) : k \in {j \in 1..Len(cr) : ~cr[j].alive}}
   \cup {F("C10", "deletion request: result differs from the handle's aliveness (handle, result)", <<de[k].h, de[k].ok>>)
           : k \in {j \in 1..Len(de) : de[j].ok # (de[j].h \in liveH)}}
+  \cup (IF "post" \in DOMAIN ev /\ ~ev.post.ok
+        THEN {F("C10", "deleting entities created in this frame (alive, not merged yet) through exclusive access failed", ev.post.hs)} ELSE {})
   \cup (IF SeqToSet(ev.after.alive) # wantAlive
         THEN {F("C10", "after maintain: alive # initial + created - requested (got, expected)", <<ev.after.alive, SortedById(wantAlive)>>)} ELSE {})
   \cup (IF ev.after.join # SortedById(wantAlive)
